@@ -101,4 +101,24 @@ def rangeVerdict (ae : Bytes) (g p : Obs) (gRange pRange : String) (gSlice pSlic
   else if !offersGzip ae then "bad:not-offered:gzip applied although the client did not offer it"
   else "ok"
 
+/-- HEAD requests and the statuses without a body, as they appear on the wire (both executions;
+`headSame`: for a HEAD request, Content-Encoding, Vary, ETag and Content-Type equal those the same
+request gets as GET).  No body; no Content-Length on 204/304; a 204 — no content at all — is not
+labelled with a coding (nor Vary / a weakened ETag); a 304 either is left alone or carries the
+header of the compressed 200 it stands for; HEAD answers what GET answers. -/
+def bodilessVerdict (ae : Bytes) (head : Bool) (g p : Obs) (headSame : Bool) : String :=
+  if !bodiless head p.status then verdict ae g p
+  else if g.status != p.status then "bad:status:the status differs from the uncompressed execution"
+  else if g.body != .raw [] || p.body != .raw [] then "bad:body:a response that must not have a body carries one"
+  else if (p.status == 204 || p.status == 304) && g.cl != .absent then "bad:content-length:Content-Length on a 204/304"
+  else if head && !headSame then "bad:head-differs:HEAD does not answer the header fields GET answers"
+  else if p.status == 204 then
+    (if g.ce = p.ce && g.varyAE == p.varyAE && g.etag == p.etag then "ok"
+     else "bad:bodiless-surprise:coding, Vary or ETag changed on a response that has no content")
+  else if g.ce = p.ce then "ok"
+  else if !unencoded p.ce then "bad:double-encoding:an already encoded response was encoded again or its Content-Encoding rewritten"
+  else if g.ce != Coding.gzip.name then "bad:ce-mismatch:Content-Encoding does not name the coding applied"
+  else if !offersGzip ae then "bad:not-offered:gzip applied although the client did not offer it"
+  else "ok"
+
 end Casket.GzipSpec
